@@ -16,7 +16,8 @@
                    record concerning their key that is a `set` or a hitting `get` is a hitting `get`)
                    have a total size within the limit - i.e. SOME retention schedule with "total size of
                    retrievable entries <= limit" explains the hits.
-   The replay is deterministic; the indices of offending records are collected and printed. *)
+   The replay is deterministic: a forward pass (Coherent, Immediate) followed by a backward pass
+   (SizeBound); the indices of offending records are collected and printed. *)
 EXTENDS Integers, Sequences, FiniteSets, TLC, Json, IOUtils
 
 Rec == ndJsonDeserialize(IOEnv.TRACE)
@@ -28,10 +29,16 @@ Key(e) == <<e.route, e.host>>
 Keys == LET R == Rec IN { Key(R[i]) : i \in 1..Len(R) }
 NoLast == [set |-> FALSE, size |-> 0, id |-> 0, mime |-> "", tlo |-> 0, thi |-> 0]
 
-VARIABLES l, last, bad
-vars == <<l, last, bad>>
+VARIABLES l,      \* forward position (1..N+1)
+          last,   \* forward pass: latest `set` per key
+          m,      \* backward position (N..0), used once the forward pass is finished
+          need,   \* backward pass: need[k] = size of the entry of k that a later lookup returns before k is
+                  \*                stored again (-1: none) - the entries that must be retained at this point
+          bad
+vars == <<l, last, m, need, bad>>
 
-Init == l = 1 /\ last = [k \in Keys |-> NoLast] /\ bad = <<>>
+Init == /\ l = 1 /\ last = [k \in Keys |-> NoLast] /\ bad = <<>>
+        /\ m = N /\ need = [k \in Keys |-> -1]
 
 Coherent(e) ==
   e.hit => LET s == last[Key(e)]
@@ -46,46 +53,50 @@ Immediate(e) ==
          /\ Rec[l - 1].lo = Rec[l - 1].hi /\ e.lo = e.hi /\ e.lo = Rec[l - 1].lo)
     => e.hit
 
-\* is key k, as stored at position < j, returned by a later lookup of the same run before it is stored
-\* again?  (forward scan from record j)
-RECURSIVE NeededFrom(_, _)
-NeededFrom(k, j) ==
-  IF j > N THEN FALSE
-  ELSE IF Rec[j].ev = "reset" THEN FALSE
-  ELSE IF Key(Rec[j]) = k /\ Rec[j].ev = "set" THEN FALSE
-  ELSE IF Key(Rec[j]) = k /\ Rec[j].ev = "get" /\ Rec[j].hit THEN TRUE
-  ELSE NeededFrom(k, j + 1)
-NeededAfter(k, i) == NeededFrom(k, i + 1)
+Note(why, at) == IF Len(bad) >= 20 THEN bad ELSE Append(bad, [at |-> at, why |-> why])
 
-RECURSIVE SumSizes(_, _)
-SumSizes(f, K) == IF K = {} THEN 0 ELSE LET k == CHOOSE k \in K : TRUE IN f[k].size + SumSizes(f, K \ {k})
-
-\* evaluated after a `set` at position i with the updated `last`
-SizeBound(newlast, i) ==
-  SumSizes(newlast, { k \in Keys : newlast[k].set /\ NeededAfter(k, i) }) <= Limit
-
-Next ==
+Forward ==
   /\ l <= N
   /\ l' = l + 1
+  /\ UNCHANGED <<m, need>>
   /\ LET e == Rec[l]
      IN  IF e.ev = "reset"
          THEN last' = [k \in Keys |-> NoLast] /\ bad' = bad
          ELSE IF e.ev = "set" /\ e.aux = 2
          THEN /\ last' = last
-              /\ bad' = IF e.size > Limit \/ Len(bad) >= 20 THEN bad ELSE Append(bad, [at |-> l, why |-> "SetPanicked"])
+              /\ bad' = IF e.size > Limit THEN bad ELSE Note("SetPanicked", l)
          ELSE IF e.ev = "set"
-         THEN LET nl == [last EXCEPT ![Key(e)] = [set |-> TRUE, size |-> e.size, id |-> e.hash, mime |-> e.mime,
-                                                   tlo |-> e.lo, thi |-> e.hi]]
-              IN  /\ last' = nl
-                  /\ bad' = IF SizeBound(nl, l) \/ Len(bad) >= 20 THEN bad ELSE Append(bad, [at |-> l, why |-> "SizeBound"])
+         THEN /\ last' = [last EXCEPT ![Key(e)] = [set |-> TRUE, size |-> e.size, id |-> e.hash, mime |-> e.mime,
+                                                    tlo |-> e.lo, thi |-> e.hi]]
+              /\ bad' = bad
          ELSE /\ last' = last
-              /\ bad' = IF Len(bad) >= 20 THEN bad
-                        ELSE IF ~Coherent(e) THEN Append(bad, [at |-> l, why |-> "Coherent"])
-                        ELSE IF ~Immediate(e) THEN Append(bad, [at |-> l, why |-> "Immediate"])
+              /\ bad' = IF ~Coherent(e) THEN Note("Coherent", l)
+                        ELSE IF ~Immediate(e) THEN Note("Immediate", l)
                         ELSE bad
+
+RECURSIVE SumNeed(_, _)
+SumNeed(f, K) == IF K = {} THEN 0 ELSE LET k == CHOOSE k \in K : TRUE IN f[k] + SumNeed(f, K \ {k})
+
+\* backwards: right after the `set` at position m the entries that later lookups return (before their
+\* keys are stored again) are all in the cache at once
+Backward ==
+  /\ l = N + 1 /\ m >= 1
+  /\ m' = m - 1
+  /\ UNCHANGED <<l, last>>
+  /\ LET e == Rec[m]
+     IN  IF e.ev = "reset"
+         THEN need' = [k \in Keys |-> -1] /\ bad' = bad
+         ELSE IF e.ev = "get" /\ e.hit
+         THEN need' = [need EXCEPT ![Key(e)] = e.rsize] /\ bad' = bad
+         ELSE IF e.ev = "set" /\ e.aux = 0
+         THEN /\ bad' = IF SumNeed(need, { k \in Keys : need[k] >= 0 }) <= Limit THEN bad ELSE Note("SizeBound", m)
+              /\ need' = [need EXCEPT ![Key(e)] = -1]
+         ELSE need' = need /\ bad' = bad
+
+Next == Forward \/ Backward
 Spec == Init /\ [][Next]_vars
 
-AllAgree == (l = N + 1) =>
+AllAgree == (l = N + 1 /\ m = 0) =>
               \/ bad = <<>>
               \/ PrintT(ToJson([property_rejects |-> [i \in 1..Len(bad) |-> [at |-> bad[i].at, why |-> bad[i].why, event |-> Rec[bad[i].at]]]])) /\ FALSE
 =============================================================================
